@@ -3,10 +3,10 @@
 import json, os
 HERE = os.path.dirname(os.path.dirname(os.path.abspath(__file__)))
 
-E1_TECH = "deterministic simulation with fault injection: the real node (all goroutines) in a synctest bubble under a seeded baton scheduler (pre-emption at every lock / channel / I/O point, behind completed channel sends and in front of sync/atomic operations; injected thread stalls), simulated transport/disk/clock, scripted peers; oracle over the recorded history; seeded search with replay + tape minimisation"
+E1_TECH = "deterministic simulation with fault injection: the real node (all goroutines) in a synctest bubble under a seeded baton scheduler (pre-emption at every lock / channel / I/O point, behind completed channel sends, behind unlocks and in front of sync/atomic operations; injected thread stalls), simulated transport/disk/clock, scripted peers; oracle over the recorded history; seeded search with replay + tape minimisation"
 E1_NOTE = "Sampling, not proof. Trusted base: go1.26.8 synctest, the source-to-source instrumentation pass, the peer/world models. OutputFetcher/TxFetcher, transport, disk, clock and scheduling are simulated; everything else is the repository's code."
 
-E2_TECH = "deterministic simulation with fault injection: the real RemoteClient (all threads) in a synctest bubble under a seeded baton scheduler (pre-emption at every lock / channel / I/O point, behind completed channel sends and in front of sync/atomic operations; injected thread stalls), against a scripted service over the simulated transport (latency, fragmentation, slow writes, drops); oracle over the recorded call/response/byte history; seeded search with replay + tape minimisation"
+E2_TECH = "deterministic simulation with fault injection: the real RemoteClient (all threads) in a synctest bubble under a seeded baton scheduler (pre-emption at every lock / channel / I/O point, behind completed channel sends, behind unlocks and in front of sync/atomic operations; injected thread stalls), against a scripted service over the simulated transport (latency, fragmentation, slow writes, drops); oracle over the recorded call/response/byte history; seeded search with replay + tape minimisation"
 E2_NOTE = "Sampling, not proof. Trusted base: go1.26.8 synctest, the instrumentation pass (incl. every select statement of remote_client.go and the tokenized/threads copy), the service model. The session hash comes from a deterministic stream instead of crypto/rand."
 
 CLAIMED = {
